@@ -206,7 +206,7 @@ def r43(repo, ctx, index):
         ctx.check(ok, 'R4.3', path, f'{cls}.setup', f, f'the first setup() sets {flag}', f'setup() does not set {flag} on every path: the initialisation is repeated by the next solve()', construct=f'{cls}.setup[{flag}=False]')
     ctx.floor('R4.3', n, 3)
     gm = repo.func('kawin/GenericModel.py', 'GenericModel.solve')
-    first = U.body_without_docstring(gm)[0]
+    first = U.first_action_on(gm) or U.body_without_docstring(gm)[0]
     ctx.check(isinstance(first, ast.Expr) and U.call_name(first.value) == 'self.setup', 'R4.3', 'kawin/GenericModel.py', 'GenericModel.solve', first, 'solve() calls setup() every time (hence the idempotence requirement)', 'solve() no longer calls setup() first')
 
 
